@@ -281,13 +281,15 @@ func main() {
 			}
 		},
 		CaseCPUBudget: 600,
-		Rule:          "case = one input package (1..6 struct declarations) drawn from the grammar in verif/gbk: field counts {1,2,3,8,9,20,21,22,30} (counted in applicable fields; `_`-prefixed and empty embedded fields are added on top), private / Public / _underscore / blank `_` / embedded fields (embedded: empty and non-empty struct, pointer to struct, pointer to empty struct, local and imported interface, named basic / slice / map / func type, instantiation of a local generic struct with a type or with the struct's own type parameter, generic non-struct, empty generic struct, imported struct, imported empty struct, alias of a struct / of a non-struct; 0..3 per struct in first / middle / last position, with and without struct tag), field types basic, named, imported, pointer, slice, []byte, array, map, func, chan (3 directions), interfaces (named, imported, inline, any), fp.Option/Seq/Map/Try/Either/Future/Tuple2/Func1, instantiations of local generic types (Cell[int], Cell[T], Bag[T], *Cell[T], Void[T]), aliases, anonymous structs, other annotated structs, type parameters with any / comparable / named-interface / inline method-set / named and inline type-set constraints and unused parameters, struct tags, annotation sets (@fp.Value alone and with @fp.Json/@fp.JsonTag/@fp.GenLabelled/@fp.String/constructors/PubField, stand-alone @fp.Getter/@fp.With/@fp.Builder/@fp.AllArgsConstructor/@fp.RequiredArgsConstructor), `type (...)` groups, doc comments, `a, b T` fields (any mix of private / public / underscore names), `type X Y` re-declarations, hand-written methods carrying generated names. Batches 0..2 are the shapes of the in-repo examples plus the tuple-limit and constraint shapes, batch 3 has one struct per embedded kind / position / sibling kind plus blank, multi-name and generic-instantiation fields, batch 4 adds a struct gombok refuses (error field), batch 5 is the embedded-unexported-type probe. The expected field list of every view comes from the spec: every field except `_`-prefixed ones and embedded EMPTY structs is kept, in declaration order (typed assignments + reflected arities in the law test, and a static census of the generated views: tuple / labelled components, Unapply results, Apply parameters, AsMap / FromMap keys, Mutable twin fields, AsMutable / AsImmutable literals). gombok (built from the working tree) runs on the package; the package is compiled together with a law test written from the spec and the laws are evaluated on >=64 generated values per struct. distinct_nontrivial = number of distinct struct shapes (multiset of field kind x visibility, annotation set, arity class, constraint kinds, hand-written members) whose laws were actually evaluated (gombok accepted them and the package compiled).",
+		Rule:          "case = one input package (1..6 struct declarations) drawn from the grammar in verif/gbk: field counts {1,2,3,8,9,20,21,22,30} (counted in applicable fields; `_`-prefixed and empty embedded fields are added on top), private / Public / _underscore / blank `_` / embedded fields (embedded: empty and non-empty struct, pointer to struct, pointer to empty struct, local and imported interface, named basic / slice / map / func type, instantiation of a local generic struct with a type or with the struct's own type parameter, generic non-struct, empty generic struct, imported struct, imported empty struct, alias of a struct / of a non-struct; 0..3 per struct in first / middle / last position, with and without struct tag), field types basic, named, imported, pointer, slice, []byte, array, map, func, chan (3 directions), interfaces (named, imported, inline, any), fp.Option/Seq/Map/Try/Either/Future/Tuple2/Func1, instantiations of local generic types (Cell[int], Cell[T], Bag[T], *Cell[T], Void[T]), aliases, anonymous structs, other annotated structs, type parameters with any / comparable / named-interface / inline method-set / named and inline type-set constraints and unused parameters, struct tags, annotation sets (@fp.Value alone and with @fp.Json/@fp.JsonTag/@fp.GenLabelled/@fp.String/constructors/PubField, stand-alone @fp.Getter/@fp.With/@fp.Builder/@fp.AllArgsConstructor/@fp.RequiredArgsConstructor), `type (...)` groups, doc comments, `a, b T` fields (any mix of private / public / underscore names), `type X Y` re-declarations, hand-written methods carrying generated names. Batches 0..2 are the shapes of the in-repo examples plus the tuple-limit and constraint shapes, batch 3 has one struct per embedded kind / position / sibling kind plus blank, multi-name and generic-instantiation fields, batch 4 adds a struct gombok refuses (error field), batch 5 is the embedded-unexported-type probe. Appended after the classic batches (13 quick / 160 thorough): batch nilable - structs with an Option / plain field of every nil-able element kind (pointer, pointer to pointer, slice, []byte, map, func, chan, interface, any, named slice, Option of Option, fp.Seq), private and public, under @fp.Value (+@fp.GenLabelled / @fp.Json / constructors / PubField accessors), under the stand-alone annotations and as instantiations of a type parameter; and ONE case annotation-combinations: every subset of {@fp.Value, @fp.Getter, @fp.With, @fp.Builder, @fp.AllArgsConstructor, @fp.RequiredArgsConstructor, @fp.GetterPubField, @fp.WithPubField, @fp.Json, @fp.GenLabelled, @fp.String, @fp.Deref} of size 1, 2 and 3, the full set and a PRNG sample of larger subsets, each on ONE struct (fields: private / public x plain / Option / pointer + an embedded pointer; singles and pairs also over the layouts only-private-Option, only-public, embedded+pointer; field names unique per struct), 545+ structs in 6 packages processed concurrently - generated code that does not compile is a violation keyed gombok/value/compile/<class>/annotations/<minimal failing subset> (a failing superset whose compiler messages are those of its failing subsets is only counted). Every law loop runs the PRNG values followed by a FORCED POOL of 24 iterations (lawrt.go lwPair): all fields nil / None / zero, Some(typed nil) + empty non-nil containers + pointer to zero, Some(empty) + empty slices with capacity, one nil element, deeper Some(...) nestings, each against a random partner, as the partner, and against the next class, then per-field random classes; payloads of WithSome / builder Some come from the same class. The expected field list of every view comes from the spec: every field except `_`-prefixed ones and embedded EMPTY structs is kept, in declaration order (typed assignments + reflected arities in the law test, and a static census of the generated views: tuple / labelled components, Unapply results, Apply parameters, AsMap / FromMap keys, Mutable twin fields, AsMutable / AsImmutable literals). gombok (built from the working tree) runs on the package; the package is compiled together with a law test written from the spec and the laws are evaluated on >=64 generated values per struct. distinct_nontrivial = number of distinct struct shapes (multiset of field kind x visibility, annotation set, arity class, constraint kinds, hand-written members) whose laws were actually evaluated (gombok accepted them and the package compiled).",
 		Assumptions: []string{
 			"field and type names are ordinary identifiers from a fixed pool: names whose derived method name collides with another member (build, builder, string, a private name next to a public Name), the receiver name r and names of imported packages are outside the grammar; so are fields named like a member promoted from an embedded field, and embedded types whose promoted methods carry generated names (an embedded fp.Option, an embedded @fp.Value struct)",
 			"embedded kinds outside the grammar: alias of an EMPTY struct (gombok keeps it although the struct is empty; undocumented either way), sync.Mutex-like types (copylocks), the predeclared error (refused, like an error field)",
 			"gombok refusing a declaration (panic such as can't summon / nil dereference, or no output for it) is not a violation; refused shapes are counted",
 			"values are PRNG samples (64 per struct in quick, 96 in thorough), not all values; func values are compared by code pointer among three distinct functions per func type",
 			"packages are PRNG samples of the grammar, not all packages",
+			"annotation combinations: what gombok does for a subset is not assumed - the law-test expectations follow from the annotations one by one (@fp.Value / @fp.Getter -> getters of private fields, @fp.Value / @fp.With -> With + WithSome/WithNone, @fp.Value / @fp.Builder -> builder, AllArgs wins over RequiredArgs, PubField accessors for public fields, @fp.Json / @fp.GenLabelled only modify @fp.Value, @fp.String and @fp.Deref add no law); a struct none of whose annotations has anything to generate (e.g. @fp.Getter without private field, @fp.Json alone, @fp.Deref on a struct declaration) is expected to produce no output. @fp.Deref forwards only when the right-hand side is `pkg.T` or an instantiation `G[A]` (in-repo shapes MapEntry / OptionalInt, seed package 0); declarations `type D Base[int]` of a local generic struct are outside the grammar (gombok prints the uninstantiated field types there under every annotation)",
+			"Option payloads: a defined Option must come back DEFINED from every round trip: Some(typed nil pointer / slice / map / func / chan) is recoverable through AsMap/FromMap by type assertion and is demanded; Some(nil interface) stores an untyped nil in the map and is not demanded (lwRecoverable)",
 		},
 		Floors: func(tier string) map[string]int64 {
 			m := map[string]int64{"packages": 13, "structs.tested": 40, "law_evaluations": 20000, "distinct": 30,
@@ -306,8 +308,24 @@ func main() {
 				m["hit."+k] = 1
 			}
 			m["census.structs"], m["census.views"] = 40, 300
+			// the forced value pool reached every law of every struct, with every nil-able shape (batch "nilable"
+			// has an Option / plain field of every nil-able kind): a run that did not see them is INCONCLUSIVE
+			m["packages"] = 20
+			m["pool.forced-iterations"] = 1000
+			for _, k := range []string{"option.none", "option.some-nil-ptr", "option.some-nil-slice", "option.some-nil-map", "option.some-nil-func", "option.some-nil-chan", "option.some-nil-interface",
+				"option.some-empty-slice", "option.some-empty-capacious-slice", "option.some-empty-map", "option.some-to-zero-ptr", "option.some-zero-int", "option.some-zero-string",
+				"ptr.nil", "ptr.to-zero", "slice.nil", "slice.empty", "slice.empty-capacious", "slice.zero-element", "map.nil", "map.empty", "func.nil", "chan.nil", "interface.nil"} {
+				m["pool."+k] = 10
+			}
+			m["frommap-asmap.option-some-typed-nil-demanded"], m["frommap-literal.option-some-typed-nil-demanded"] = 100, 100
+			// annotation combinations: every single / pair / triple was generated and the laws ran for most of them
+			m["combos.structs"], m["combos.structs.laws-ran"] = 500, 400
+			m["combos.laws-ran.size-1"], m["combos.laws-ran.size-2"], m["combos.laws-ran.size-3"], m["combos.laws-ran.size-4"] = 20, 200, 180, 3
+			for _, l := range gbk.ComboLayouts {
+				m["combos.laws-ran.layout."+l] = 50
+			}
 			if tier == "thorough" {
-				m["packages"], m["structs.tested"], m["law_evaluations"], m["distinct"] = 160, 400, 300000, 250
+				m["packages"], m["structs.tested"], m["law_evaluations"], m["distinct"] = 169, 400, 300000, 250
 				m["census.structs"], m["census.views"] = 400, 3000
 			}
 			return m
